@@ -248,7 +248,7 @@ func (f *gfacts) addScope(sc int) {
 	f.accts[sc] = []int64{0}
 	f.names[sc] = map[int]bool{1: true, 2: true}
 	f.nameOfA[[2]int64{int64(sc), 0}] = 2
-	f.lastAcct[sc] = -1
+	f.lastAcct[sc] = 0 // createManagerKeyScope records the default account as last account
 }
 
 func (f *gfacts) hasAcct(sc int, a int64) bool {
